@@ -20,7 +20,8 @@
 //! (StmF or StrF is the predefined /Identity filter), `-length-absent` / `-length-256` (top-level /Length toggled),
 //! `-direct-dict` (/Encrypt is a direct dictionary), `-identity-in-cf`, and `-cf` followed by what the crypt filter dictionaries of the
 //! file leave out or write differently (`-cf-notype`, `-cf-noauthevent`, `-cf-nolength`, `-cf-lengthbits` and their combinations, see
-//! `CfShape`); O-value, U-value, P-word, perms, dict-V-R-Length,
+//! `CfShape`), and `-v1-r3` first of all suffixes for a document whose algorithm code V is not the one lopdf's own writer pairs with
+//! the revision (V 1 with R 3: ISO 32000-1 table 21, the 40-bit algorithm with a revision 3 permission withdrawn); O-value, U-value, P-word, perms, dict-V-R-Length,
 //! id-not-encrypted and (direction B) file-key never carry a suffix.  Detail texts start with a constant phrase of more than
 //! 48 characters, because Report::fail groups failures by that prefix.
 //!
@@ -756,6 +757,7 @@ impl Variant {
 struct Case {
     dir: char,        // 'A' reference encrypts, lopdf opens; 'B' lopdf encrypts, reference opens
     r: u8,            // revision 2..6
+    v: i64,           // the algorithm code V of the encryption dictionary: 1, 2, 4, 5 (ISO 32000-1 table 20); `default_v(r)` or, direction A, 1 with R 3
     bits: usize,      // file key length
     stm: Ciph,
     strf: Ciph,
@@ -771,25 +773,29 @@ struct Case {
 
 impl Case {
     fn to_json(&self, obligation: &str) -> Value {
-        json!({"obligation": obligation, "dir": self.dir.to_string(), "r": self.r, "bits": self.bits, "stm": self.stm.s(), "str": self.strf.s(), "em": self.em, "perm": self.perm,
+        json!({"obligation": obligation, "dir": self.dir.to_string(), "r": self.r, "v": self.v, "bits": self.bits, "stm": self.stm.s(), "str": self.strf.s(), "em": self.em, "perm": self.perm,
                "user": self.user, "owner": self.owner, "seed": self.seed, "layout": self.layout, "variant": self.variant.s(), "cf": self.cf.s()})
     }
     fn from_json(v: &Value) -> Case {
-        Case { dir: v["dir"].as_str().unwrap_or("A").chars().next().unwrap_or('A'), r: v["r"].as_u64().unwrap_or(2) as u8, bits: v["bits"].as_u64().unwrap_or(40) as usize,
+        let r = v["r"].as_u64().unwrap_or(2) as u8;
+        Case { dir: v["dir"].as_str().unwrap_or("A").chars().next().unwrap_or('A'), r, v: v["v"].as_i64().unwrap_or(default_v(r)), bits: v["bits"].as_u64().unwrap_or(40) as usize,
                stm: Ciph::parse(v["stm"].as_str().unwrap_or("RC4")), strf: Ciph::parse(v["str"].as_str().unwrap_or("RC4")), em: v["em"].as_bool().unwrap_or(true),
                perm: v["perm"].as_u64().unwrap_or(0) as u32, user: v["user"].as_str().unwrap_or("").into(), owner: v["owner"].as_str().unwrap_or("").into(),
                seed: v["seed"].as_u64().unwrap_or(0), layout: v["layout"].as_u64().unwrap_or(0) as u8, variant: Variant::parse(v["variant"].as_str().unwrap_or("base")), cf: CfShape::parse(v["cf"].as_str().unwrap_or("base")) }
     }
-    fn v(&self) -> i64 { match self.r { 2 => 1, 3 => 2, 4 => 4, _ => 5 } }
+    fn v(&self) -> i64 { self.v }
+    /// V is not the code lopdf's own writer pairs with the revision (today: V 1 with R 3)
+    fn alt_v(&self) -> bool { self.v != default_v(self.r) }
     fn n(&self) -> usize { self.bits / 8 }
     fn p(&self) -> i32 { conforming_p(self.perm) }
     fn describe(&self) -> String {
-        format!("{} R{} {} bits StmF={} StrF={} em={} P={} user={:?} owner={:?} seed={} layout={} {}{}", self.dir, self.r, self.bits, self.stm.s(), self.strf.s(), self.em, self.p(),
+        format!("{} R{}{} {} bits StmF={} StrF={} em={} P={} user={:?} owner={:?} seed={} layout={} {}{}", self.dir, self.r, if self.alt_v() { format!("/V{}", self.v) } else { String::new() }, self.bits, self.stm.s(), self.strf.s(), self.em, self.p(),
                 short(&self.user), short(&self.owner), self.seed, if self.layout == 0 { "table" } else { "xref-stream" }, self.variant.s(), if self.cf.is_base() { String::new() } else { format!(" cf={}", self.cf.s()) })
     }
     /// input-class suffix of the obligation names
     fn suffix(&self) -> String {
         let mut s = String::new();
+        if self.alt_v() { s.push_str(&format!("-v{}-r{}", self.v, self.r)); }
         if self.stm == Ciph::Identity || self.strf == Ciph::Identity { s.push_str(if self.variant == Variant::IdentityInCf { "-identity-in-cf" } else { "-identity" }); }
         match self.variant {
             Variant::LengthToggled => s.push_str(if self.r >= 5 { "-length-256" } else { "-length-absent" }),
@@ -802,6 +808,7 @@ impl Case {
     /// whether the encryption dictionary carries a top-level /Length (direction A)
     fn length_entry(&self) -> Option<i64> {
         let toggled = self.variant == Variant::LengthToggled;
+        if self.v == 1 { return None; }                                  // V 1: Length is meaningful only for V 2 and 3 (the key has 40 bits)
         match self.r {
             2 => None,                                                   // V 1: Length is meaningful only for V 2 and 3
             3 => if toggled { None } else { Some(self.bits as i64) },    // toggled only for 40 bits (the default value)
@@ -811,9 +818,17 @@ impl Case {
     }
 }
 
+/// the algorithm code lopdf's writer (and most producers) pair with a revision: R2 - V1, R3 - V2, R4 - V4, R5/R6 - V5
+fn default_v(r: u8) -> i64 { match r { 2 => 1, 3 => 2, 4 => 4, _ => 5 } }
+
 fn short(s: &str) -> String { if s.chars().count() > 24 { format!("{}..({} bytes)", s.chars().take(24).collect::<String>(), s.len()) } else { s.to_string() } }
 
 const PERM_SETS: [u32; 3] = [0x0F3C, 0x0000, 0x0114]; // all; none; print + copy + fill forms (bits 3, 5, 9)
+/// ISO 32000-1 table 21 (32000-2 table 21): with V 1 the revision is 3 exactly when one of the permissions "of revision 3 or greater"
+/// (bits 9-12: fill forms, extract for accessibility, assemble, print in high quality) is withdrawn.  The words of the V 1 / R 3
+/// handler: everything but high quality printing; none; print + copy + fill forms
+const V1R3_PERM_SETS: [u32; 3] = [0x073C, 0x0000, 0x0114];
+const REV3_BITS: u32 = 0x0F00;
 
 const U32: &str = "exactly-thirty-two-bytes-long-pw";
 const U40: &str = "common-prefix-of-32-bytes-------USERTAIL";
@@ -845,47 +860,53 @@ fn password_pairs(r: u8) -> Vec<(String, String)> {
 }
 
 #[derive(Clone, Copy)]
-struct Handler { r: u8, bits: usize, stm: Ciph, strf: Ciph, em: bool }
+struct Handler { r: u8, v: i64, bits: usize, stm: Ciph, strf: Ciph, em: bool }
 
 fn handlers(thorough: bool) -> Vec<Handler> {
-    let mut out = vec![Handler { r: 2, bits: 40, stm: Ciph::Rc4, strf: Ciph::Rc4, em: true }];
+    let mut out = vec![Handler { r: 2, v: 1, bits: 40, stm: Ciph::Rc4, strf: Ciph::Rc4, em: true }];
+    // V 1 with R 3: the 40-bit algorithm under the revision 3 computations (50 MD5 rounds, 19 RC4 rounds, Algorithm 5); direction A only
+    out.push(Handler { r: 3, v: 1, bits: 40, stm: Ciph::Rc4, strf: Ciph::Rc4, em: true });
     let r3: Vec<usize> = if thorough { (40..=128).step_by(8).collect() } else { vec![40, 56, 64, 128] };
-    for bits in r3 { out.push(Handler { r: 3, bits, stm: Ciph::Rc4, strf: Ciph::Rc4, em: true }); }
+    for bits in r3 { out.push(Handler { r: 3, v: 2, bits, stm: Ciph::Rc4, strf: Ciph::Rc4, em: true }); }
     for em in [true, false] {
-        for stm in [Ciph::Rc4, Ciph::AesV2, Ciph::Identity] { for strf in [Ciph::Rc4, Ciph::AesV2, Ciph::Identity] { out.push(Handler { r: 4, bits: 128, stm, strf, em }); } }
+        for stm in [Ciph::Rc4, Ciph::AesV2, Ciph::Identity] { for strf in [Ciph::Rc4, Ciph::AesV2, Ciph::Identity] { out.push(Handler { r: 4, v: 4, bits: 128, stm, strf, em }); } }
     }
-    for r in [5u8, 6] { for em in [true, false] { out.push(Handler { r, bits: 256, stm: Ciph::AesV3, strf: Ciph::AesV3, em }); } }
+    for r in [5u8, 6] { for em in [true, false] { out.push(Handler { r, v: 5, bits: 256, stm: Ciph::AesV3, strf: Ciph::AesV3, em }); } }
     out
 }
 
 fn cases(thorough: bool) -> Vec<Case> {
     let mut out = vec![];
     let mk = |dir: char, h: &Handler, perm: u32, u: &str, o: &str, seed: u64, layout: u8, variant: Variant| Case {
-        dir, r: h.r, bits: h.bits, stm: h.stm, strf: h.strf, em: h.em, perm, user: u.into(), owner: o.into(), seed, layout, variant, cf: CfShape::BASE };
+        dir, r: h.r, v: h.v, bits: h.bits, stm: h.stm, strf: h.strf, em: h.em, perm, user: u.into(), owner: o.into(), seed, layout, variant, cf: CfShape::BASE };
     let three: [(&str, &str); 3] = [("user", "Owner-Pass"), ("", "Owner-Pass"), ("user", "")];
     let seeds: &[u64] = if thorough { &[0, 1, 2, 3] } else { &[0, 1] };
     for h in handlers(thorough) {
-        // the full product, both directions
-        for dir in ['A', 'B'] {
-            for perm in PERM_SETS { for (u, o) in password_pairs(h.r) { for &seed in seeds { for layout in [0u8, 1] {
+        // the full product, both directions (a V that lopdf's writer cannot be asked for: direction A only, and only the
+        // permission words with which ISO 32000 table 21 prescribes that pair)
+        let alt_v = h.v != default_v(h.r);
+        let dirs: &[char] = if alt_v { &['A'] } else { &['A', 'B'] };
+        let perm_sets: [u32; 3] = if alt_v { V1R3_PERM_SETS } else { PERM_SETS };
+        for &dir in dirs {
+            for perm in perm_sets { for (u, o) in password_pairs(h.r) { for &seed in seeds { for layout in [0u8, 1] {
                 out.push(mk(dir, &h, perm, &u, &o, seed, layout, Variant::Base));
             } } } }
             // thorough: every combination of the eight access bits (3-6, 9-12), one password pair, one seed, cross-reference table
             if thorough {
                 for k in 0u32..256 {
                     let perm = ((k & 0x0F) << 2) | ((k >> 4) << 8);
-                    if PERM_SETS.contains(&perm) { continue; }
+                    if perm_sets.contains(&perm) || (alt_v && perm & REV3_BITS == REV3_BITS) { continue; }
                     out.push(mk(dir, &h, perm, "user", "Owner-Pass", 0, 0, Variant::Base));
                 }
             }
         }
         // variants: all permissions, three password pairs, both seeds, cross-reference table
-        let toggles = match h.r { 2 => false, 3 => h.bits == 40, _ => true };
-        let direct = match h.r { 3 => h.bits == 128, 4 => h.stm == Ciph::AesV2 && h.strf == Ciph::AesV2 && h.em, _ => h.em };
+        let toggles = match h.r { 2 => false, 3 => h.bits == 40 && !alt_v, _ => true };
+        let direct = match h.r { 3 => h.bits == 128 || alt_v, 4 => h.stm == Ciph::AesV2 && h.strf == Ciph::AesV2 && h.em, _ => h.em };
         let id_in_cf = h.r == 4 && (h.stm == Ciph::Identity || h.strf == Ciph::Identity);
         for (u, o) in three { for seed in [0u64, 1] {
-            if toggles { out.push(mk('A', &h, PERM_SETS[0], u, o, seed, 0, Variant::LengthToggled)); }
-            if direct { out.push(mk('A', &h, PERM_SETS[0], u, o, seed, 0, Variant::DirectDict)); }
+            if toggles { out.push(mk('A', &h, perm_sets[0], u, o, seed, 0, Variant::LengthToggled)); }
+            if direct { out.push(mk('A', &h, perm_sets[0], u, o, seed, 0, Variant::DirectDict)); }
             if id_in_cf { out.push(mk('B', &h, PERM_SETS[0], u, o, seed, 0, Variant::IdentityInCf)); }
         } }
         // crypt filter dictionary shapes: every handler that has a crypt filter dictionary to write, every shape other than the base one
@@ -900,11 +921,15 @@ fn cases(thorough: bool) -> Vec<Case> {
     out
 }
 
-const BOUND: &str = "cases = (direction, handler, permission word, (user, owner) password pair, seed, file layout, variant, crypt filter dictionary shape); every listed set is enumerated completely (no sampling). \
+const BOUND: &str = "cases = (direction, handler = (algorithm code V, revision R, key length, filters, EncryptMetadata), permission word, (user, owner) password pair, seed, file layout, variant, crypt filter dictionary shape); every listed set is enumerated completely (no sampling). \
 DIRECTIONS: A = the reference handler of this module (own MD5/SHA-2/AES/RC4, own PDF writer) encrypts, lopdf load_mem + authenticate_user_password / authenticate_owner_password / decrypt opens; \
 B = lopdf EncryptionState::try_from + Document::encrypt + save_to produces, the reference reads the encryption dictionary, authenticates and decrypts. \
-HANDLERS: R2 (V1, RC4 40); R3 (V2, RC4) with key length 40,48,..,128 (quick tier: 40,56,64,128); R4 (V4, 128 bit) with StmF x StrF over {RC4 (/V2), AESV2, the predefined /Identity} x EncryptMetadata {true,false}; \
+HANDLERS: R2 (V1, RC4 40); R3 (V2, RC4) with key length 40,48,..,128 (quick tier: 40,56,64,128); R3 under V1 (RC4, 40-bit key, no /Length; direction A only, see (V, R) PAIRS); R4 (V4, 128 bit) with StmF x StrF over {RC4 (/V2), AESV2, the predefined /Identity} x EncryptMetadata {true,false}; \
 R5 and R6 (V5, AESV3, 256 bit) x EncryptMetadata {true,false}. \
+(V, R) PAIRS: all pairs that ISO 32000-1 tables 20/21 and 32000-2 tables 20/21 define for the published algorithms: (1,2), (1,3), (2,3), (4,4), (5,5), (5,6); (1,3) is the 40-bit algorithm with the revision 3 computations \
+(Algorithm 2 with 50 MD5 rounds over 5 bytes, Algorithms 3 and 5 with 19 further RC4 passes, 16 significant bytes of U), which table 21 prescribes when V is 1 and a permission 'of revision 3 or greater' (bits 9-12) is withdrawn; \
+it is run in direction A only (lopdf's writer cannot be asked for it: EncryptionVersion::V1 always writes R 2) as a handler of its own in the FULL PRODUCT, with the 3 permission words that withdraw such a bit: all but high quality printing (-2052), none (-3904), print+copy+fill (-3628), \
+all password pairs, seeds and layouts, plus the direct-dictionary variant; thorough tier additionally every access-bit combination with a bit 9-12 withdrawn (240 words in all, instead of the 256 of the other handlers), pair (user, Owner-Pass), seed 0, cross-reference table. \
 PERMISSIONS: 3 conforming words (bits 1-2 zero, 7-8 and 13-32 one): all access bits (-4), none (-3904), print+copy+fill (-3628); \
 thorough tier additionally: all 256 combinations of the access bits 3-6 and 9-12, each handler, both directions, with the pair (user, Owner-Pass), seed 0, cross-reference table. \
 PASSWORDS: users {empty, 'user', non-ASCII (R2-4: a-umlaut, Euro, Lslash, zcaron, bullet = PDFDocEncoding E4 A0 95 9E 80; R5/6: e-acute, lambda, a CJK character, UTF-8), boundary length (R2-4: exactly 32 bytes; R5/6: exactly 127 bytes), \
@@ -916,13 +941,13 @@ DOCUMENT (fixed): strings of 0,1,5,15,16,17,20,32,33 bytes (literal and hexadeci
 (R>=4) a stream with /Filter /Crypt /Name /Identity; ids 1..16 with generations 0,1,2, and 11 gen 300, 300 gen 0, 66051 gen 258, 70000 gen 0, 16909060 gen 5. \
 FULL PRODUCT in both directions: handlers x permissions x pairs x seeds x layouts. \
 VARIANTS (permission word -4, pairs {(user,Owner-Pass),('',Owner-Pass),(user,'')}, 2 seeds, table): A with the top-level /Length toggled (R3/40 and R4: absent; R5/R6: /Length 256 present; base is /Length present for R3/R4, absent for R2/R5/R6), \
-A with /Encrypt as a direct dictionary in the trailer (one handler per revision), B with Identity requested through a CF entry holding lopdf's IdentityCryptFilter (R4 handlers that use Identity; base requests the name /Identity without CF entry). \
+A with /Encrypt as a direct dictionary in the trailer (one handler per (V, R) pair; permission word -2052 for (1,3)), B with Identity requested through a CF entry holding lopdf's IdentityCryptFilter (R4 handlers that use Identity; base requests the name /Identity without CF entry). \
 CRYPT FILTER DICTIONARY SHAPES (direction A, every R4/R5/R6 handler with at least one non-Identity filter, i.e. 16 R4 handlers and the 4 R5/R6 handlers): the entries of ISO 32000 table 25 that a producer is free to write or not, \
 /Type /CryptFilter {present, absent} x /AuthEvent /DocOpen {present, absent (DocOpen is the default)} x /Length {in bytes (16 / 32), in bits (128 / 256), absent} = 12 shapes of every dictionary in CF; /CFM is always present; \
 all cases above use the shape (Type, AuthEvent, Length in bytes); the other 11 shapes are each run with permission word -4, the pairs {(user,Owner-Pass),('',Owner-Pass),(user,'')}, every seed of the tier (2 / 4) and both layouts, with the same checks as any A case (same keys, same ciphertext: the shape enters no algorithm). \
 EACH A CASE: user password, owner password (effective: the user password if there is none), a wrong password, the user password with one character appended (if shorter than the significant length) and (if neither password is empty) the empty password; lopdf's file key is compared with the reference's. \
 EACH B CASE: V, R, Length, P, CF/StmF/StrF/CFM/AuthEvent, EncryptMetadata, O and U recomputed (R2-4) or validated with UE/OE/Perms (R5/6), file key, every string and stream decrypted by the reference, /ID untouched. \
-NOT COVERED: crypt filter names other than StdCF / RC4CF; CF entries that StmF and StrF do not name; a CF entry without /CFM or with /CFM /None (direction A); /AuthEvent /EFOpen; passwords that SASLprep changes; non-conforming P words; R4 crypt filters with keys shorter than 128 bits; V5 with Identity or mixed filters; public-key handlers; /EFF; array-form DecodeParms of /Crypt; \
+NOT COVERED: V 3 (unpublished algorithm) and V 0; V 1 together with a /Length entry; (V, R) pairs outside tables 20/21 (e.g. V 2 with R 2, V 1 with R 3 and all of bits 9-12 granted); V 1 / R 3 in direction B; crypt filter names other than StdCF / RC4CF; CF entries that StmF and StrF do not name; a CF entry without /CFM or with /CFM /None (direction A); /AuthEvent /EFOpen; passwords that SASLprep changes; non-conforming P words; R4 crypt filters with keys shorter than 128 bits; V5 with Identity or mixed filters; public-key handlers; /EFF; array-form DecodeParms of /Crypt; \
 object streams in direction B (lopdf's writer produces none)";
 
 // ===============================================================================================================
@@ -1208,6 +1233,11 @@ fn run_a(c: &Case) -> Fails {
     let comp = if c.layout == 1 { compressed_objects() } else { vec![] };
     let cf_cell: std::cell::OnceCell<String> = std::cell::OnceCell::new();   // computed only when some data does not come back
     let cf_note = || -> String { cf_cell.get_or_init(|| diagnose_cf(c, &re)).clone() };
+    // what makes the (V, R) pair of this file conforming, for the cases where it is not the pair lopdf's own writer produces
+    let vr_note: String = if c.alt_v() {
+        format!("; the encryption dictionary has /V {} /R {} and no /Length (40-bit key): ISO 32000-1 table 21 prescribes R 3 with V 1 when a permission 'of revision 3 or greater' (bits 9-12) is withdrawn, here P = {} withdraws bit(s) {}; the keys follow Algorithms 2, 3, 5 for revision 3 with n = 5",
+            c.v, c.r, c.p(), (9..=12).filter(|b| c.perm & (1 << (b - 1)) == 0).map(|b| b.to_string()).collect::<Vec<_>>().join(","))
+    } else { String::new() };
     let mut objects: Vec<((u32, u16), Object)> = plain.iter().map(|(id, o)| (*id, rc.encrypt(*id, o, &mut rng))).collect();
     let mut compressed: Vec<(u32, u32, u16)> = vec![];
     if !comp.is_empty() {
@@ -1237,7 +1267,7 @@ fn run_a(c: &Case) -> Fails {
             // load_mem tries the empty password; "incorrect password" as a LOAD error means it authenticated (else the file would have been left encrypted) and then failed deriving the key
             if c.r >= 5 && upw.is_empty() && format!("{}", e).contains("password is incorrect") {
                 push(&mut f, "perms", format!("load_mem of the reference-encrypted file failed: {}: the empty user password passed authentication (Algorithm 11) and was then rejected while deriving the file key, i.e. by Algorithm 13, the validation of /Perms = AES-256-ECB(file key, P | ffffffff | T/F | 'adb' | random)", e));
-            } else { push(&mut f, &ob("reference-encrypted-opens-in-lopdf"), format!("load_mem of the reference-encrypted file failed: {}", e)); }
+            } else { push(&mut f, &ob("reference-encrypted-opens-in-lopdf"), format!("load_mem of the reference-encrypted file failed: {}{}", e, vr_note)); }
             return f;
         }
         Ok(Ok(d)) => d,
@@ -1274,12 +1304,12 @@ fn run_a(c: &Case) -> Fails {
     let open_checks = |enc: &Document, f: &mut Fails| {
         match lib(|| enc.authenticate_user_password(&c.user)) {
             Err(p) => push(f, "no-panic", format!("authenticate_user_password panicked: {}", p)),
-            Ok(Err(e)) => push(f, &ob("reference-encrypted-opens-in-lopdf"), format!("Algorithm {}: authenticate_user_password rejects the user password {:?}: {}; {}", if c.r <= 4 { "6" } else { "11" }, short(&c.user), e, diagnose_a(enc, &upw, &re.fkey, c.r))),
+            Ok(Err(e)) => push(f, &ob("reference-encrypted-opens-in-lopdf"), format!("Algorithm {}: authenticate_user_password rejects the user password {:?}: {}; {}{}", if c.r <= 4 { "6" } else { "11" }, short(&c.user), e, diagnose_a(enc, &upw, &re.fkey, c.r), vr_note)),
             Ok(Ok(())) => {}
         }
         match lib(|| enc.authenticate_owner_password(eff_owner_str)) {
             Err(p) => push(f, "no-panic", format!("authenticate_owner_password panicked: {}", p)),
-            Ok(Err(e)) => push(f, &ob("reference-encrypted-opens-in-lopdf"), format!("Algorithm {}: authenticate_owner_password rejects the owner password {:?}: {}; {}", if c.r <= 4 { "7" } else { "12" }, short(eff_owner_str), e, diagnose_a(enc, &eff_owner, &re.fkey, c.r))),
+            Ok(Err(e)) => push(f, &ob("reference-encrypted-opens-in-lopdf"), format!("Algorithm {}: authenticate_owner_password rejects the owner password {:?}: {}; {}{}", if c.r <= 4 { "7" } else { "12" }, short(eff_owner_str), e, diagnose_a(enc, &eff_owner, &re.fkey, c.r), vr_note)),
             Ok(Ok(())) => {}
         }
         let mut pws: Vec<(&str, &[u8], &str)> = vec![(c.user.as_str(), upw.as_slice(), "user")];
@@ -1292,7 +1322,7 @@ fn run_a(c: &Case) -> Fails {
                     // R5/6: the password hash is accepted (Algorithm 11) but the key derivation, which then runs Algorithm 13, says "incorrect password"
                     let perms_stage = c.r >= 5 && label == "user" && format!("{}", e).contains("password is incorrect") && matches!(lib(|| enc.authenticate_user_password(pw)), Ok(Ok(())));
                     if perms_stage { push(f, "perms", format!("decrypt with the user password failed although authenticate_user_password accepts it (Algorithms 2.B / 11 agree): the rejection comes from Algorithm 13, the validation of /Perms = AES-256-ECB(file key, P | ffffffff | T/F | 'adb' | 4 random bytes) written by the reference; password {:?}, error: {}", short(pw), e)); }
-                    else { push(f, &ob("reference-encrypted-opens-in-lopdf"), format!("decrypt with the {} password {:?} failed: {}; {}", label, short(pw), e, diagnose_a(enc, pwb, &re.fkey, c.r))); }
+                    else { push(f, &ob("reference-encrypted-opens-in-lopdf"), format!("decrypt with the {} password {:?} failed: {}; {}{}", label, short(pw), e, diagnose_a(enc, pwb, &re.fkey, c.r), vr_note)); }
                 }
                 Ok(Ok(())) => {
                     let key_ok = match d.encryption_state.as_ref().map(|s| s.file_encryption_key().to_vec()) {
